@@ -98,7 +98,8 @@ jobs = [
     dict(name='ascii_isalnum', props=P, enforce='ascii_isalnum', replace=['ascii_isdigit'], harness='char c; ascii_isalnum(c); VERIF_REACH;'),
     dict(name='ascii_isspace', props=P, enforce='ascii_isspace', harness='char c; ascii_isspace(c); VERIF_REACH;'),
     dict(name='xss_split_to_parts', props=P, enforce='xss_split_to_parts', timeout=600, cost=10, harness=r'''
-    SYM_BUF(char, buf, n, BUF_CAP); size_t k; g_k = k; g_in_b = buf; g_in_e = buf + n; g_last_end = OFF(buf); g_parts = 0;
+    /* the tokeniser forms p+4 and e+2 before comparing them with end: up to 3 bytes past the end (never dereferenced); the input is modelled inside an object with 4 bytes of slack (observation) */
+    size_t n; __CPROVER_assume(n <= BUF_CAP); WIT_CAP(n); char *buf = malloc(n + 4); __CPROVER_assume(buf != NULL); size_t k; g_k = k; g_in_b = buf; g_in_e = buf + n; g_last_end = OFF(buf); g_parts = 0;
     WIT_BUF(0, buf, n);
     xss_split_to_parts(buf, buf + n); VERIF_REACH;''', witness=dict(bufs=['in'])),
 ]
